@@ -7,6 +7,7 @@ import ImapVerif.Proofs.Num
 import ImapVerif.Proofs.StableGrammar
 import ImapVerif.Proofs.CodeText
 import ImapVerif.Proofs.RTResp
+import ImapVerif.Proofs.NumReject
 
 open Bytes Parser Grammar
 
@@ -141,5 +142,31 @@ theorem status_line_code_overflow (st : Status) (ms : List Bool) (k : NumCode) (
 example : RT.NumCode.uidNext.bound ≤ decVal (b!"4294967296") := by decide
 example : parseResponse (b!"* OK [UIDNEXT 4294967296] x\r\n") =
     .ok (.data .ok none (some (b!"[UIDNEXT 4294967296] x"))) [] := by rfl
+
+/-! ### response level: an out-of-range numeral in front of the response, or in a FETCH attribute -/
+
+/-- `* <numeral beyond 32 bits> ...` - whatever follows the numeral (EXISTS, RECENT, EXPUNGE, FETCH (...),
+    anything) - is a parse error of the whole response parser: no alternative gives it a value -/
+theorem untagged_number_overflow (ds : Bytes) (hne : ds ≠ []) (hall : ∀ d ∈ ds, isDigit d = true)
+    (hbig : 2 ^ 32 ≤ decVal ds) (c : UInt8) (r : Bytes) (hc : isDigit c = false) :
+    parseResponse (b!"* " ++ (ds ++ c :: r)) = .err :=
+  RT.parseResponse_err_big ⟨ds, c, r, rfl, hne, hall, hbig, hc⟩
+
+/-- `* n FETCH (UID <too big>`, `(RFC822.SIZE <too big>` (32 bits), `(MODSEQ (<too big>`, `(X-GM-MSGID <too big>`
+    (64 bits), in every spelling of the keywords and for every sequence number `n` with any leading
+    zeros: a parse error of the whole response parser -/
+theorem fetch_attribute_overflow (n : Nat) (hn : n < 2 ^ 32) (z : Nat) (mf : List Bool) (a : RT.NumAttr) (m : List Bool)
+    (i : Bytes) (h : a.Big i) :
+    parseResponse (b!"* " ++ ((List.replicate z 48 ++ decDigits n) ++ (RT.spell (b!" FETCH ") mf ++ 40 :: (RT.spell a.kw m ++ i))))
+      = .err :=
+  RT.parseResponse_fetch_err n hn _ (.mk z) mf _ (RT.msgAtt_err_big a m i h)
+
+/-- non-vacuity: concrete instances of the two theorems, and what the parser says on them -/
+example : parseResponse (b!"* 4294967296 EXISTS\r\n") = .err :=
+  untagged_number_overflow (b!"4294967296") (by decide) (by decide) (by decide) 32 (b!"EXISTS\r\n") (by decide)
+example : RT.NumAttr.uid.Big (b!"4294967296)\r\n") :=
+  ⟨b!"4294967296", 41, b!"\r\n", rfl, by decide, by decide, by decide, by decide⟩
+example : parseResponse (b!"* 1 FETCH (UID 4294967296)\r\n") = .err := by rfl
+example : parseResponse (b!"* 1 FETCH (MODSEQ (18446744073709551616))\r\n") = .err := by rfl
 
 end C13
